@@ -49,7 +49,17 @@ def gen_pair(rng):
     # sometimes one method's ordinary temporaries are named like the other's loop counters
     cross = rng.random() < 0.35
     kwa = dict(kw, counters=["c1", "c2", "c3"], extra_locals=["i", "j", "ii"]) if cross else kw
-    if rng.random() < 0.5:
+    if rng.random() < 0.25:
+        # the method written first registers user functions under plain names ('limit', 'u'): the other method's
+        # temporaries may carry the same names (functions and variables live in separate namespaces)
+        kwa = dict(kwa, shadow_funcs=True, call_bias=0.15)
+        if rng.random() < 0.5:
+            a = prog.Gen(rng, persist_tag="_a", components=["ya", "aux_a"], **kwa).script()
+            b = prog.Gen(rng, persist_tag="_b", components=["yb", "aux_b"], **kw).script()
+        else:
+            b = prog.Gen(rng, persist_tag="_b", components=["yb", "aux_b"], **kwa).script()
+            a = prog.Gen(rng, persist_tag="_a", components=["ya", "aux_a"], **kw).script()
+    elif rng.random() < 0.5:
         a = prog.Gen(rng, persist_tag="_a", components=["ya", "aux_a"], **kwa).script()
         b = prog.Gen(rng, persist_tag="_b", components=["yb", "aux_b"], **kw).script()
     else:
